@@ -162,20 +162,50 @@ def lean_audit(pid, prop_modules, all_modules):
 INSTRUMENT_CLOCK = ["container/lru/expirable.go", "kvs/inmem/inmem.go", "kvs/redis/redis.go"]
 
 
-def instrument():
-    d = os.path.join(WORK, "instr")
-    shutil.rmtree(d, ignore_errors=True)
-    os.makedirs(d, exist_ok=True)
-    for rel in INSTRUMENT_CLOCK:
-        src = os.path.join(REPO, rel)
-        if not os.path.exists(src):
-            continue
-        txt = open(src).read()
+# files whose mutex-protected regions are announced to the harness: `X.lock.Lock()` is followed by
+# verifEnter(X, site) and every `X.lock.Unlock()` is preceded by verifLeave(X, site) (both defined in the
+# package's overlay accessor; no-ops unless the harness installs a hook).  Only calls are INSERTED.
+INSTRUMENT_SECTIONS = ["kvs/inmem/inmem.go", "container/lru/ecache.go", "timeout/timeout.go"]
+
+
+def instrument_text(rel, txt):
+    notes = []
+    if rel in INSTRUMENT_CLOCK:
         n = txt.count("time.Now()") + len(re.findall(r"time\.(Until|Since)\(", txt))
         txt = txt.replace("time.Now()", "verifNow()")
         txt = re.sub(r"time\.Until\(([^()]*(?:\([^()]*\))?[^()]*)\)", r"(\1).Sub(verifNow())", txt)
         txt = re.sub(r"time\.Since\(([^()]*(?:\([^()]*\))?[^()]*)\)", r"verifNow().Sub(\1)", txt)
-        txt += "\n// verif: %d time.Now() call(s) redirected to verifNow()\nvar _ = time.Second\n" % n
+        notes.append("%d clock read(s) redirected to verifNow()" % n)
+    if rel in INSTRUMENT_SECTIONS:
+        out, k = [], 0
+        for i, line in enumerate(txt.split("\n"), 1):
+            m = re.match(r"^(\s*)defer (\w+)\.lock\.Unlock\(\)\s*$", line)
+            if m:
+                out.append('%sdefer func() { verifLeave(%s, "L%d"); %s.lock.Unlock() }()' % (m.group(1), m.group(2), i, m.group(2))); k += 1; continue
+            m = re.match(r"^(\s*)(\w+)\.lock\.Unlock\(\)\s*$", line)
+            if m:
+                out.append('%sverifLeave(%s, "L%d"); %s.lock.Unlock()' % (m.group(1), m.group(2), i, m.group(2))); k += 1; continue
+            m = re.match(r"^(\s*)(\w+)\.lock\.Lock\(\)\s*$", line)
+            if m:
+                out.append('%s%s.lock.Lock(); verifEnter(%s, "L%d")' % (m.group(1), m.group(2), m.group(2), i)); k += 1; continue
+            out.append(line)
+        txt = "\n".join(out)
+        notes.append("%d lock/unlock site(s) announced" % k)
+    txt += "\n// verif: " + "; ".join(notes) + "\n"
+    if re.search(r'^\s*"time"\s*$', txt, re.M):
+        txt += "var _ = time.Second\n"
+    return txt
+
+
+def instrument():
+    d = os.path.join(WORK, "instr")
+    shutil.rmtree(d, ignore_errors=True)
+    os.makedirs(d, exist_ok=True)
+    for rel in sorted(set(INSTRUMENT_CLOCK) | set(INSTRUMENT_SECTIONS)):
+        src = os.path.join(REPO, rel)
+        if not os.path.exists(src):
+            continue
+        txt = instrument_text(rel, open(src).read())
         with open(os.path.join(d, rel[:-3].replace("/", "__") + ".go"), "w") as f:
             f.write(txt)
 
@@ -579,6 +609,10 @@ def run_property(pid, tier):
             run.facts = facts.get("facts", {})
             if rc != 0:
                 extractor_broken = "extractor cannot translate the current source: " + xout.strip()[-400:]
+        for fk, want in cfg.get("facts", {}).items():
+            got = getattr(run, "facts", {}).get(fk)
+            if got != want:
+                extractor_broken = (extractor_broken or "") + f" skeleton fact {fk} is {got}, the model was written for {want};"
         st, out = stage_lean(run, cfg)
         proof_broken = None
         if st == "driver":
